@@ -1,8 +1,9 @@
 ------------------------------ MODULE MC_C17 ------------------------------
 EXTENDS ErrorPos, TLC, Json
 \* plans: relative positions (the harness takes them modulo the actual counts)
-Plans == {[a |-> a, t |-> t, edit |-> e, stuff |-> s, crlf |-> c, file |-> f] :
-            a \in 0..5, t \in 0..7, e \in Edits, s \in Stuff, c \in BOOLEAN, f \in BOOLEAN}
-Useful(p) == p.edit = "delete" => p.stuff = "notoken"      \* nothing is put in on deletion: one plan per position
+Plans == {[a |-> a, t |-> t, anchor |-> an, edit |-> e, stuff |-> s, crlf |-> c, file |-> f] :
+            a \in 0..5, t \in 0..7, an \in Anchors, e \in Edits, s \in Stuff, c \in BOOLEAN, f \in BOOLEAN}
+Useful(p) == /\ p.edit = "delete" => p.stuff = "notoken"      \* nothing is put in on deletion: one plan per position
+             /\ p.anchor # "nth" => p.t = 0                    \* the anchor names the token
 EmitPlans == (doc = <<>> /\ phase = "write") => \A p \in {q \in Plans : Useful(q)} : PrintT(<<"CASE", ToJson(p)>>)
 =============================================================================
